@@ -279,8 +279,17 @@ func ruleFreshDecode(p *Program, r *Result, delivery bool) {
 				}
 				if lc, ok := bo.X.(*ssa.Call); ok {
 					if bi, ok := lc.Common().Value.(*ssa.Builtin); ok && bi.Name() == "len" {
-						if _, base, ok := loadedField(lc.Common().Args[0]); ok && base == ssa.Value(a) && domInstr(iff, sd) {
-							nchk++
+						if _, base, ok := loadedField(lc.Common().Args[0]); ok && domInstr(iff, sd) {
+							// on the fresh value itself, or on a by-value copy of it handed to a folded check
+							same := base == ssa.Value(a)
+							if b2, isAlloc := base.(*ssa.Alloc); isAlloc && !same {
+								if st := allocStores(b2); len(st) == 1 && isCopyOfLocal(st[0].Val, a, 3) {
+									same = true
+								}
+							}
+							if same {
+								nchk++
+							}
 						}
 					}
 				}
@@ -354,6 +363,14 @@ func ruleConsumerReplaces(p *Program, r *Result) {
 							check(st.Val, a.Comment)
 						}
 					}
+					// the parts kept in one local struct value
+					if fa, ok := st.Addr.(*ssa.FieldAddr); ok {
+						if a, ok := fa.X.(*ssa.Alloc); ok {
+							if _, _, isB := stateBundle(a.Type().(*types.Pointer).Elem()); isB && (isProviderSlice(st.Val.Type()) || isFilterPtr(st.Val.Type())) {
+								check(st.Val, a.Comment)
+							}
+						}
+					}
 				}
 			}
 		}
@@ -396,6 +413,66 @@ func isProviderSlice(t types.Type) bool {
 func isFilterPtr(t types.Type) bool {
 	pt, ok := t.(*types.Pointer)
 	return ok && typeIs(pt.Elem(), modPath+"/cmds/server/loader", "prefixFilter")
+}
+
+// stateBundle: a struct type of the loader holding the provider list and both prefix filters (the lookup state
+// kept as one value instead of three variables). Returns the field indices.
+func stateBundle(t types.Type) (prov int, filters []int, ok bool) {
+	st, isStruct := t.Underlying().(*types.Struct)
+	if !isStruct {
+		return 0, nil, false
+	}
+	prov = -1
+	for i := 0; i < st.NumFields(); i++ {
+		ft := st.Field(i).Type()
+		if isProviderSlice(ft) {
+			if prov >= 0 {
+				return 0, nil, false
+			}
+			prov = i
+		}
+		if isFilterPtr(ft) {
+			filters = append(filters, i)
+		}
+	}
+	return prov, filters, prov >= 0 && len(filters) >= 2
+}
+
+// bundleFieldStores: v is the load of a local struct built field by field; returns, per field index, the values
+// stored, the local itself, and whether the local is written in any other way (a whole-value store, an escape).
+func bundleFieldStores(v ssa.Value) (map[int][]*ssa.Store, *ssa.Alloc, bool) {
+	u, ok := v.(*ssa.UnOp)
+	if !ok || u.Op != token.MUL {
+		return nil, nil, false
+	}
+	al, ok := u.X.(*ssa.Alloc)
+	if !ok {
+		return nil, nil, false
+	}
+	out := map[int][]*ssa.Store{}
+	clean := true
+	for _, ref := range *al.Referrers() {
+		switch x := ref.(type) {
+		case *ssa.FieldAddr:
+			for _, r2 := range *x.Referrers() {
+				switch y := r2.(type) {
+				case *ssa.Store:
+					if y.Addr == ssa.Value(x) {
+						out[x.Field] = append(out[x.Field], y)
+					} else {
+						clean = false
+					}
+				case *ssa.UnOp, *ssa.DebugRef:
+				default:
+					clean = false
+				}
+			}
+		case *ssa.UnOp, *ssa.DebugRef:
+		default:
+			clean = false
+		}
+	}
+	return out, al, clean
 }
 
 // ---------------------------------------------------------------------------
@@ -1198,6 +1275,12 @@ func ruleAtomicReload(p *Program, r *Result) {
 			}
 		}
 		if len(phis) < 3 {
+			// the three values kept as one struct value
+			if done := atomicReloadBundle(p, r, key, sel, caseBlock); done {
+				continue
+			}
+		}
+		if len(phis) < 3 {
 			r.bad("R-ATOMICRELOAD", key, p.Pos(sel.Pos()), "the update loop does not carry the provider list and both prefix filters as loop-local values (%d found): lookups cannot be handed one consistent set", len(phis))
 			continue
 		}
@@ -1244,6 +1327,290 @@ func ruleAtomicReload(p *Program, r *Result) {
 	if !found {
 		r.undecided("R-ATOMICRELOAD", "update-loop", "-", "UNRESOLVED: no select receiving a config.ServerConfig in the loader")
 	}
+}
+
+// atomicReloadBundle: the loop carries one struct value holding the provider list and both filters. It must be
+// replaced in the configuration case, and only there, by a value all of whose three parts are built in that case.
+func atomicReloadBundle(p *Program, r *Result, key string, sel *ssa.Select, caseBlock *ssa.BasicBlock) bool {
+	var bundle *ssa.Phi
+	for _, in := range sel.Block().Instrs {
+		if ph, ok := in.(*ssa.Phi); ok {
+			if _, _, isB := stateBundle(ph.Type()); isB {
+				if bundle != nil {
+					return false
+				}
+				bundle = ph
+			}
+		}
+	}
+	if bundle == nil {
+		return atomicReloadCell(p, r, key, sel, caseBlock)
+	}
+	prov, filters, _ := stateBundle(bundle.Type())
+	need := append([]int{prov}, filters...)
+	good := true
+	var why []string
+	replacedInCase := false
+	for i, e := range bundle.Edges {
+		pred := bundle.Block().Preds[i]
+		inCase := pred == caseBlock || caseBlock.Dominates(pred)
+		switch {
+		case e == ssa.Value(bundle):
+			if inCase {
+				good = false
+				why = append(why, "the state is not replaced when a configuration arrives")
+			}
+		case inCase:
+			replacedInCase = true
+			if phiReaches(e, bundle) {
+				good = false
+				why = append(why, "the state keeps its previous value on some path through the configuration case")
+				continue
+			}
+			for _, src := range phiSources(e) {
+				stores, al, clean := bundleFieldStores(src)
+				if al == nil || !clean {
+					good = false
+					why = append(why, "the new state is not a local value built field by field in the configuration case")
+					continue
+				}
+				for _, f := range need {
+					okField := false
+					for _, st := range stores[f] {
+						inC := st.Block() == caseBlock || caseBlock.Dominates(st.Block())
+						if inC && domInstr(st, src.(ssa.Instruction)) && !derivesFromPhi(st.Val, bundle) {
+							okField = true
+						} else if !inC || derivesFromPhi(st.Val, bundle) {
+							okField = false
+							break
+						}
+					}
+					if !okField {
+						good = false
+						why = append(why, fmt.Sprintf("field #%d of the new state is not built from the arriving configuration on every path", f))
+					}
+				}
+			}
+		default:
+			if bundle.Block().Dominates(pred) {
+				good = false
+				why = append(why, "the state is replaced outside the configuration case")
+			}
+		}
+	}
+	if !replacedInCase {
+		good = false
+		why = append(why, "the state is never replaced in the configuration case")
+	}
+	if good {
+		r.ok("R-ATOMICRELOAD", key, p.Pos(sel.Pos()), true, "providers, deny filter and allow filter are carried as one loop-local struct value (%s) that is replaced, all three parts newly built, in the case that receives a configuration and in no other case", bundle.Comment)
+	} else {
+		r.bad("R-ATOMICRELOAD", key, p.Pos(sel.Pos()), "the parts of a configuration are not installed together: %s — a lookup can observe the filters of one configuration with the providers of another", strings.Join(why, "; "))
+	}
+	return true
+}
+
+// bundleAllocs: the local struct values that v (a load of a local of bundle type) can hold: the local itself and,
+// through whole-value stores, the locals it is assigned from.
+func bundleAllocs(v ssa.Value) []*ssa.Alloc {
+	var out []*ssa.Alloc
+	seen := map[*ssa.Alloc]bool{}
+	var walk func(x ssa.Value)
+	walk = func(x ssa.Value) {
+		for _, s := range phiSources(x) {
+			u, ok := s.(*ssa.UnOp)
+			if !ok || u.Op != token.MUL {
+				continue
+			}
+			al, ok := u.X.(*ssa.Alloc)
+			if !ok || seen[al] {
+				continue
+			}
+			seen[al] = true
+			out = append(out, al)
+			for _, ref := range *al.Referrers() {
+				if st, ok := ref.(*ssa.Store); ok && st.Addr == ssa.Value(al) {
+					walk(st.Val)
+				}
+			}
+		}
+	}
+	walk(v)
+	return out
+}
+
+// fieldStoresOf: the stores into field #f of the local struct al.
+func fieldStoresOf(al *ssa.Alloc, f int) []*ssa.Store {
+	var out []*ssa.Store
+	for _, ref := range *al.Referrers() {
+		if fa, ok := ref.(*ssa.FieldAddr); ok && fa.Field == f {
+			for _, r2 := range *fa.Referrers() {
+				if st, ok := r2.(*ssa.Store); ok && st.Addr == ssa.Value(fa) {
+					out = append(out, st)
+				}
+			}
+		}
+	}
+	return out
+}
+
+// atomicReloadCell: the state is one local struct variable (not lifted to a register because its fields are
+// addressed). Inside the loop it may be written only in the configuration case, on every path through it, and
+// all three parts of what is written must be built there.
+func atomicReloadCell(p *Program, r *Result, key string, sel *ssa.Select, caseBlock *ssa.BasicBlock) bool {
+	fn := sel.Parent()
+	var cell *ssa.Alloc
+	for _, b := range fn.Blocks {
+		for _, in := range b.Instrs {
+			if al, ok := in.(*ssa.Alloc); ok && !blockReachFromSelf(b) {
+				if _, _, isB := stateBundle(al.Type().(*types.Pointer).Elem()); isB {
+					// the variable that lives across iterations: read in the loop
+					readInLoop := false
+					for _, ref := range *al.Referrers() {
+						if blockReachFromSelf(ref.Block()) {
+							readInLoop = true
+						}
+					}
+					if readInLoop {
+						if cell != nil {
+							return false
+						}
+						cell = al
+					}
+				}
+			}
+		}
+	}
+	if cell == nil {
+		return false
+	}
+	prov, filters, _ := stateBundle(cell.Type().(*types.Pointer).Elem())
+	need := append([]int{prov}, filters...)
+	good := true
+	var why []string
+	inCase := func(b *ssa.BasicBlock) bool { return b == caseBlock || caseBlock.Dominates(b) }
+	// every path through the case passes block b
+	onEveryPath := func(b *ssa.BasicBlock) bool {
+		if b == caseBlock {
+			return true
+		}
+		return !blockReach(caseBlock, map[*ssa.BasicBlock]bool{b: true})[sel.Block()]
+	}
+	builtInCase := func(st *ssa.Store) bool {
+		if !inCase(st.Block()) {
+			return false
+		}
+		for _, s := range phiSources(st.Val) {
+			if f, _, ok := loadedField(s); ok && f != nil {
+				if _, base, _ := loadedField(s); base == ssa.Value(cell) {
+					return false // copied from the state being replaced
+				}
+			}
+			if in, ok := s.(ssa.Instruction); !ok || !inCase(in.Block()) {
+				return false
+			}
+		}
+		return true
+	}
+	replaced := map[int]bool{}
+	for _, ref := range *cell.Referrers() {
+		switch x := ref.(type) {
+		case *ssa.Store:
+			if x.Addr != ssa.Value(cell) || !blockReachFromSelf(x.Block()) {
+				continue
+			}
+			if !inCase(x.Block()) {
+				good = false
+				why = append(why, "the state is replaced outside the configuration case")
+				continue
+			}
+			allBuilt := true
+			for _, al := range bundleAllocs(x.Val) {
+				if al == cell {
+					continue
+				}
+				for _, f := range need {
+					sts := fieldStoresOf(al, f)
+					if len(sts) == 0 {
+						allBuilt = false
+					}
+					for _, st := range sts {
+						if !builtInCase(st) {
+							allBuilt = false
+						}
+					}
+				}
+			}
+			if len(bundleAllocs(x.Val)) == 0 {
+				allBuilt = false
+			}
+			if !allBuilt {
+				good = false
+				why = append(why, "a part of the new state is not built from the arriving configuration")
+			}
+			if onEveryPath(x.Block()) {
+				for _, f := range need {
+					replaced[f] = true
+				}
+			}
+		case *ssa.FieldAddr:
+			for _, r2 := range *x.Referrers() {
+				st, ok := r2.(*ssa.Store)
+				if !ok || st.Addr != ssa.Value(x) || !blockReachFromSelf(st.Block()) {
+					continue
+				}
+				isNeeded := false
+				for _, f := range need {
+					if f == x.Field {
+						isNeeded = true
+					}
+				}
+				if !isNeeded {
+					continue
+				}
+				if !builtInCase(st) {
+					good = false
+					why = append(why, fmt.Sprintf("field #%d of the state is written outside the configuration case or from the old state", x.Field))
+					continue
+				}
+				if onEveryPath(st.Block()) {
+					replaced[x.Field] = true
+				}
+			}
+		case *ssa.UnOp, *ssa.DebugRef:
+		default:
+			if blockReachFromSelf(ref.Block()) {
+				good = false
+				why = append(why, "the state variable escapes inside the loop")
+			}
+		}
+	}
+	for _, f := range need {
+		if !replaced[f] {
+			good = false
+			why = append(why, fmt.Sprintf("field #%d of the state is not replaced on every path through the configuration case", f))
+		}
+	}
+	if good {
+		r.ok("R-ATOMICRELOAD", key, p.Pos(sel.Pos()), true, "providers, deny filter and allow filter are kept in one loop-local struct variable (%s); inside the loop it is written only in the case that receives a configuration, on every path through it, with all three parts newly built there", cell.Comment)
+	} else {
+		sort.Strings(why)
+		r.bad("R-ATOMICRELOAD", key, p.Pos(sel.Pos()), "the parts of a configuration are not installed together: %s — a lookup can observe the filters of one configuration with the providers of another", strings.Join(why, "; "))
+	}
+	return true
+}
+
+// derivesFromPhi: v is read out of the loop-carried value ph (a field of it, possibly through phis).
+func derivesFromPhi(v ssa.Value, ph *ssa.Phi) bool {
+	for _, s := range phiSources(v) {
+		if s == ssa.Value(ph) {
+			return true
+		}
+		if f, ok := s.(*ssa.Field); ok && phiReaches(f.X, ph) {
+			return true
+		}
+	}
+	return false
 }
 
 // phiReaches: v is target, or a phi one of whose (transitive) alternatives is target.
@@ -1333,7 +1700,6 @@ func stripSlices(v ssa.Value) ssa.Value {
 		}
 	}
 }
-
 
 // isCopyOfLocal: v is the value of local a: a load of a, or a load of another local whose only store is such
 // a value (a struct handed on by value through a folded helper).
